@@ -20,7 +20,10 @@ RULE = ('(value, spec) pairs: 17 operators x operand pairs (integers, decimals, 
         'dot "5.", exponent notation "1e3" / "2.5E-1", blanks around the value; the oracle judges a numeric operand when '
         'it is a decimal numeral in positional or scientific notation with at most 15 significant digits - meaning: the '
         'rational it denotes - and does not judge digit-group underscores, inf / nan, non-ASCII digits and other Unicode '
-        'blanks, on which the documentation is silent and which stay in the model/implementation correspondence; strings over letters, digits and punctuation, equal / prefix / '
+        'blanks, on which the documentation is silent and which stay in the model/implementation correspondence; the '
+        'value families of the typed operators (list / tuple / dict / string / number literals, str(list), bracketed '
+        'non-literals) crossed with the untyped operators <in>, s-operators, <or> and no operator, with operands that '
+        'are pieces of the value text touching its brackets, quotes and commas; strings over letters, digits and punctuation, equal / prefix / '
         'adjacent) x 1..5 alternatives or list items x four bracket combinations with values on, inside and outside '
         'both ends x leading / separating / trailing whitespace, plus a malformed stream (token soup, glued operators, '
         'non-pyparsing whitespace), plus in-process call sequences: families of specs with the same characters once '
@@ -422,11 +425,101 @@ def spacing(rng):
     return rng.choice(LEADS), rng.choice(SEPS), rng.choice(TAILS)
 
 
+def shaped_value(rng):
+    """A value that looks like what another operator reads: a Python list / tuple / dict / string /
+    number literal, str(list), bracketed text that is no literal, a `<range-in>`-like text.  For the
+    untyped operators (`<in>`, the s-operators, `<or>`, no operator) it is just a string."""
+    items = [lit_word(rng) if rng.random() < 0.75 else gen_int(rng) % 1000 for _ in range(rng.randrange(0, 4))]
+    r = rng.random()
+    if r < 0.30:
+        v = list_value(items, rng)
+        if rng.random() < 0.6:
+            v = v.replace(' ', '')
+        return v
+    if r < 0.42:
+        return str([i if isinstance(i, str) else int(i) for i in items])          # exactly str(list)
+    if r < 0.50:
+        return rng.choice(['[]', '[1,2]', '[1, 2]', "['aes']", "['aes', 'mmx']", '["aes","mmx"]', "[['a'],'b']",
+                           '[a,b]', '[aes]', "['a'", "'a']", '[,]', '[1 2]'])
+    if r < 0.60:
+        return '(' + ','.join(repr(i) if isinstance(i, str) else str(i) for i in items) + (',)' if items else ')')
+    if r < 0.68:
+        return '{' + ','.join('%r:%d' % (str(i), n) for n, i in enumerate(items)) + '}'
+    if r < 0.78:
+        q = rng.choice(['"', "'"])
+        return q + gen_word(rng, 5).replace(q, '') + q
+    if r < 0.90:
+        return render_num(gen_dec(rng) if rng.random() < 0.5 else gen_int(rng), rng)
+    return rng.choice(['[ 10 20 ]', '( 1 2 )', 'True', 'None', "b'a'", '1,2', "'a','b'"])
+
+
+def window(text, rng, marks='[](){}\'",:'):
+    """A piece of `text` usable as an operand (no blank, not starting with an operator), preferably one
+    that is a substring only through the rendering: it touches a bracket, quote, comma or colon."""
+    best = None
+    for _ in range(30):
+        if not text:
+            break
+        i = rng.randrange(0, len(text))
+        j = rng.randrange(i + 1, min(len(text), i + 6) + 1)
+        w = text[i:j]
+        if any(c.isspace() for c in w) or starts_with_op(w):
+            continue
+        if any(c in marks for c in w):
+            return w
+        best = best or w
+    return best
+
+
+def gen_cross(rng, lead, sep, tail):
+    """The value families of the typed operators crossed with the untyped ones."""
+    v = shaped_value(rng)
+    kind = rng.choice(['in'] * 6 + ['str'] * 3 + ['or', 'plain', 'num'])
+    if kind == 'in':
+        x = window(v, rng)
+        r = rng.random()
+        if x and r < 0.2:                       # near miss: one character changed
+            k = rng.randrange(len(x))
+            x = x[:k] + rng.choice('x,]\'["0') + x[k + 1:]
+        elif r < 0.3:
+            x = rng.choice([',', "',", "'", '"', '[', ']', '[]', "['", "']", '1,', ',2', '2]', '(', ')', '{', ':'])
+        if not x or starts_with_op(x) or any(c.isspace() for c in x):
+            x = ','
+        return v, lead + '<in>' + sep + x + tail, 'cross/in'
+    # operands for whole-string comparisons: the value itself, one of its pieces, a near copy
+    r = rng.random()
+    solid = not any(c.isspace() for c in v) and v and not starts_with_op(v)
+    if r < 0.45 and solid:
+        x = v
+    elif r < 0.75:
+        x = window(v, rng, marks='') or 'x'
+    elif solid:
+        x = v[:-1] + rng.choice(['', ']', "'", '0', 'x'])
+    else:
+        x = gen_word(rng)
+    if not x or starts_with_op(x) or any(c.isspace() for c in x):
+        x = 'x' + ''.join(c for c in x if not c.isspace())
+    if kind == 'str':
+        op = rng.choice(STR_OPS)
+        return v, lead + op + sep + x + tail, 'cross/str'
+    if kind == 'or':
+        alts = [x] + [window(v, rng) or gen_word(rng) for _ in range(rng.randrange(0, 3))]
+        alts = [a for a in alts if a and not starts_with_op(a)]
+        rng.shuffle(alts)
+        return v, lead + ''.join('<or>' + sep + a + rng.choice(SEPS) for a in alts).rstrip() + tail, 'cross/or'
+    if kind == 'plain':
+        return v, lead + x + tail, 'cross/plain'
+    return v, lead + rng.choice(NUM_OPS) + sep + x + tail, 'cross/num'
+
+
 def gen_case(rng):
     """One structured (value, spec, tag)."""
     lead, sep, tail = spacing(rng)
     kind = rng.choice(['num'] * 7 + ['str'] * 6 + ['in', 'in', 'or', 'or', 'or', 'allin', 'allin', 'allin',
-                                                     'range', 'range', 'range', 'range', 'plain', 'plain'])
+                                                     'range', 'range', 'range', 'range', 'plain', 'plain']
+                      + ['cross'] * 6)
+    if kind == 'cross':
+        return gen_cross(rng, lead, sep or ' ', tail)
     if kind == 'num':
         op = rng.choice(NUM_OPS)
         a, b = num_pair(rng)
